@@ -42,6 +42,11 @@ def gen(rng, tier):
                     num.rnd(ty, 2.0 ** -(rng.choice([20, 22, 23, 24, 25, 30]) if ty == "f32" else rng.choice([40, 50, 51, 52, 53, 54, 60])))
                 x[3], y[3] = (num.rnd(ty, 1.0 - e), num.rnd(ty, 1.0 - e * rng.unit())) if rng.chance(1, 2) else (e, num.rnd(ty, e * rng.unit()))
             pairs.append(("float", x, y))
+        for _ in range(20 if tier == "quick" else 1000):
+            t = 2.0 ** -(rng.choice([1030, 1040, 1060]) if ty == "f64" else rng.choice([130, 135, 140]))
+            x, y = G.grid_bop(rng, 8), G.grid_bop(rng, 8)
+            x[3], y[3] = t, rng.choice([0.0, t, 2 * t])
+            pairs.append(("subnormal_base_rate", x, y))
         for i, (tag, x, y) in enumerate(pairs):
             for op in ("bmul", "bcomul"):
                 if i % 5 == 0 and admissible(op, x, x):
